@@ -183,6 +183,20 @@ def o_history(case):
                         raw, parsed = next(live)
                     except StopIteration:
                         raw, parsed = None, None
+                elif op.get("via") == "iter-next":
+                    # a new iter() on the same reader every time (what each `for` statement does)
+                    try:
+                        raw, parsed = next(iter(live))
+                    except StopIteration:
+                        raw, parsed = None, None
+                elif op.get("via") == "for-break":
+                    # a `for` loop left after its first result, to be resumed by the next loop; the application also
+                    # looks at the stream the reader holds
+                    raw, parsed = None, None
+                    for raw, parsed in live:
+                        break
+                    if live.datastream is not live_stream:
+                        raise Fail("datastream-property", "reader.datastream is not the stream the reader was given")
                 else:
                     raw, parsed = live.read()
                 res = ("ok", pub(parsed)) if parsed is not None else ("none", None)
@@ -256,7 +270,7 @@ def s_history(draw, tier):
             "how": st.sampled_from(["msg", "msg", "static", "reader", "live", "live", "drain", "static-badcrc"]),
             "pre": st.one_of(st.none(), st.none(), junk),
             "bt": st.sampled_from([0, 0, 1]),
-            "via": st.sampled_from(["read", "next"]),
+            "via": st.sampled_from(["read", "next", "iter-next", "for-break"]),
             "ubx": st.one_of(st.none(), st.none(), st.none(), st.tuples(st.sampled_from([1, 8, 40, 200]), st.integers(0, 300)).map(list)),
             "lm": st.sampled_from([1, 1, 2]),
             "mut": st.sampled_from([None, None, None, "truncate", "flip", "splice", "ones-from"]),
